@@ -2,3 +2,4 @@ import OsuModel.FileCache
 import OsuModel.TimeIntegration
 import OsuModel.TimeConv
 import OsuModel.Spectral
+import OsuModel.Interp
